@@ -145,6 +145,8 @@ def gen_case(rnd, model=None, dynamics=None, **kw):
         case['prerun'] = True
     if model == 'SIR_VariableInfection' and rnd.random() < 0.3:
         case['vi_post'] = rnd.choice([0.125, 0.25, 0.5, 1.0])
+    if rnd.random() < 0.15:
+        case['used'] = True          # the prototype is the network an earlier experiment left behind
     nameable = ('SIR', 'SIS', 'SIRS', 'SIR_FixedRecovery', 'SIS_FixedRecovery')
     if model in nameable and rnd.random() < 0.25:
         # two named instances of disease models on one network (the whole-run Coq tie covers single instances only)
@@ -197,6 +199,19 @@ def run_case(case):
     cls = models()[model]
     sp = spec(model)
     g = make_graph(case['graph'])
+    if case.get('used'):
+        # the prototype is the working network an EARLIER experiment (its own objects, same model, other random choices)
+        # left behind, compartments, occupied edges, hitting times and all: "for every network"
+        m0 = cls()
+        d0 = (ep.StochasticDynamics if case['dynamics'] == 'stochastic' else ep.SynchronousDynamics)(m0, g)
+        m0.setMaximumTime(case['maxtime'])
+        install(Oracle(seed=case['seed'] + 17))
+        try:
+            d0.set(dict(params_for(model, dict(case['pv'], pSeed=0.5, pInfect=1.0)))).run(fatal=True)
+            if d0.network() is not None:
+                g = d0.network()
+        except Exception:
+            pass
     inst = case.get('inst')
     if model == 'SIR_VariableInfection' and case.get('vi_post') is not None:
         # a user process in the documented way: variable infection whose seeds are removed by a POSTED event
